@@ -299,7 +299,7 @@ def rule_r34(chk, prog, paths):
                       'a replacement happened but the "changed" flag is not '
                       'set: the unchanged input would be returned',
                       loc=m.loc(loop), nontrivial=True)
-    chk.floor('C11.R4', 'iteration paths of substitute', n_it, 8)
+    chk.floor('C11.R4', 'iteration paths of substitute', n_it, 5)
     # unchanged => the original argument object
     IN, _ = cfg.guard_facts()
     ok = False
@@ -608,6 +608,15 @@ def run(tier):
     chk.guard(rule_r34, chk, prog, paths)
     chk.guard(rule_r5, chk, prog)
     chk.guard(rule_r6, chk, prog)
+    # substitute decides "unchanged" by Node equality, which short-cuts on
+    # equal ids: ids must be unique across the main process and the workers
+    from . import c12
+    sub12 = Check('C12', 'other', tier, [], [])
+    chk.guard(c12.rule_r4, sub12, prog)
+    chk.adopt('C11.R7', 'node identities are unique across processes '
+              '(shared with C12.R4): the identity short cut of Node.__eq__ '
+              'cannot make a rebuilt spine node look unchanged, so a '
+              'designated node is never silently kept', sub12)
     extra = None
     if tier == 'thorough':
         from .. import selftest
